@@ -1,12 +1,64 @@
 CFG = dict(
-    lean_modules=["SaramaVerif.Model.Admin"],
-    lean_support=["SaramaVerif.GoSem"],
+    # Lean modules whose theorems are this property's proof obligations (built + audited on every run).
+    lean_modules=["SaramaVerif.Model.Admin", "SaramaVerif.Props.C19", "SaramaVerif.Bridge.C19"],
+    lean_support=["SaramaVerif.GoSem", "SaramaVerif.Gen.C19"],
     model="C19",
-    required_theorems=[],
-    n={"quick": 2500, "thorough": 40000, "search": 4000},
+    required_theorems=[
+        # retry wrapper
+        "Props.C19.retry_first_final", "Props.C19.retry_exhausted",
+        "Props.C19.attempts_pos_atLeastOne", "Props.C19.attempts_pos_plusOne", "Props.C19.attempts_pos_asIs",
+        # reading of answers
+        "Props.C19.inspect_item_code", "Props.C19.inspect_item_incomplete", "Props.C19.inspect_item_transport",
+        "Props.C19.inspect_nc", "Props.C19.inspect_nc_err", "Props.C19.inspect_ok_iff",
+        # controller-bound operations
+        "Props.C19.controller_op_core", "Props.C19.controller_op_spec", "Props.C19.controller_op_error_unchanged",
+        "Props.C19.controller_op_exhausted", "Props.C19.controller_op_success_only_if_acked",
+        "Props.C19.controller_op_unsupported", "Props.C19.controller_op_spec_partial",
+        "Props.C19.reassign_pinned_single_attempt",
+        # grouping
+        "Props.C19.group_one_request_per_broker", "Props.C19.group_entries", "Props.C19.group_each_item_once",
+        "Props.C19.grouping_spec_delete_records", "Props.C19.delete_records_lookup_error",
+        "Props.C19.grouping_spec_describe_groups", "Props.C19.describe_groups_lookup_error",
+        "Props.C19.delete_group_spec", "Props.C19.list_group_offsets_spec", "Props.C19.describe_log_dirs_spec",
+        # bridge
+        "Bridge.C19.errNotController_eq", "Bridge.C19.errNoError_eq", "Bridge.C19.errUnsupportedVersion_eq",
+        "Bridge.C19.createTopicsVersion_eq", "Bridge.C19.deleteTopicsVersion_eq", "Bridge.C19.offsetFetchVersion_eq",
+        "Bridge.C19.createTopicsRequiredCases_eq", "Bridge.C19.deleteTopicsRequiredCases_eq",
+        "Bridge.C19.createTopicsRequired_eq", "Bridge.C19.deleteTopicsRequired_eq",
+        "Bridge.C19.createPartitionsRequired_eq", "Bridge.C19.reassignRequired_eq",
+        "Bridge.C19.deleteRecordsRequired_eq", "Bridge.C19.deleteGroupsRequired_eq",
+        "Bridge.C19.deleteGroupInspect_eq", "Bridge.C19.deleteGroupInspect_eq_inspectItem",
+    ],
+    n={"quick": 10000, "thorough": 250000, "search": 4000},
     thorough_seeds=4,
     level="proof",
-    assumptions=[],
+    assumptions=[
+        "broker answers, the controller's whereabouts per attempt, partition leadership and group coordinators are arbitrary scripts (parameters of the model)",
+        "client.Controller/RefreshController/Leader/Coordinator are modelled by their contract (cached id / id from fresh metadata / lookup result); C15 ties them to metadata",
+        "the back-off sleep of retryOnError is ignored; a broker call that returns an error without a usable response is one opaque 'transport' outcome (injected as an undecodable response)",
+        "DescribeLogDirs is modelled for broker ids the client knows (an unknown id makes the pinned code wait forever: probed and reported, outside the statement)",
+    ],
     trusted_base=[],
 )
-CFG["manifest"] = dict(text="", note="", technique="")
+CFG["manifest"] = dict(
+    text="Proof: Lean theorems over ALL scripts (controller id and answer per attempt, every Admin.Retry.Max, every error code, "
+         "missing items, undecodable answers, every leadership / coordinator map over any broker set) that (1) a controller-bound "
+         "operation returns what the first answer that is not NOT_CONTROLLER among the allowed attempts says - success exactly when "
+         "that answer acknowledges every requested item, any other code typed and unchanged without retry - after sending attempt i to "
+         "the controller the refreshed metadata named at that time, with index+1 requests and one refresh per NOT_CONTROLLER; "
+         "(2) DeleteRecords / DescribeConsumerGroups send one request per leader / coordinator carrying exactly its items (each item "
+         "exactly as often as requested, never to another broker) and report an error as soon as one broker call fails or one item "
+         "carries an error code; DeleteConsumerGroup / ListConsumerGroupOffsets / DescribeLogDirs ask the right broker once and hand its "
+         "verdict on. The theorems are proved for the repaired variants of the model; for the pinned tree they hold under the stated "
+         "extra hypotheses (Admin.Retry.Max >= 1; not AlterPartitionReassignments) and concrete counter-examples are proved for the "
+         "rest (known findings). Version-selection chains, requiredVersion tables, error constants and the DeleteConsumerGroup tail are "
+         "re-translated from /repo on every run and proved equal to the model; retryOnError, isErrNoController, the retry closures and "
+         "the grouping loops are tied by differential execution of the real ClusterAdmin against scripted in-package MockBrokers "
+         "(result + per-broker request log + metadata refresh count vs the compiled model) plus an oracle that evaluates the property "
+         "statement itself on result and request log.",
+    note="Trusted: Lean kernel; translator tools/extract + GoSem.lean; harness, scripted MockBroker handlers (overlay c19_cluster.go) and line protocol. "
+         "Modelled not verified: client-side controller/leader/coordinator caches (contract only), the wire codec (C09/C10), timing/back-off. "
+         "Pinned-tree deviations reported as known findings: Retry.Max=0 returns nil without sending; AlterPartitionReassignments neither "
+         "recognises NOT_CONTROLLER nor a negative top-level code nor a missing partition. DescribeLogDirs with an unknown broker id never returns (observed, outside the statement).",
+    technique="Lean 4 proof (induction over the retry loop with a client/world invariant; list counting for the grouping) + regenerated bridge obligations + differential correspondence against scripted mock brokers",
+)
